@@ -61,7 +61,7 @@ claim("C04",
       GEN, "DESIGN.md 5/C03-C04")
 claim("C03",
       "On MC_Flow TLC evaluates C03 on the specification's own renderings (Render.tla) with SemVerOrder / Pep440Order: exact tag when clean, X.Y.Z < V < X.Y.(Z+1) otherwise, strict increase with one more commit in commit mode; presets without a pre-release or post component are design-level counterexamples and are listed as known findings. The same inequalities are then evaluated by Trace_Flow on the OBSERVED semver / pep440 outputs of every generated input and of random runs, parsed by the grammar modules - zerv's own comparator is never the judge.",
-      "Exhaustive over the bounded input product x all 11 standard presets; random beyond. The SemVer upper bound is not claimed for tags with an epoch. Git-history chains are covered by C02's sessions.",
+      "Exhaustive over the bounded input product x all 11 standard presets; random beyond. The SemVer upper bound is not claimed for tags with an epoch. Along real git histories: the flow version before and after every commit and merge commit of recorded sessions (200 quick / 3000 thorough; the first of each recording is a scripted criss-cross) must strictly increase, and a clean checkout at a final tag must print it (Trace_GitRepo).",
       GEN, "DESIGN.md 5/C03-C04")
 
 
